@@ -667,5 +667,7 @@ def get_hardware_num_denom(
         )
 
     denom_diff = 4 - instr.angle_denom.value
-    angle_num = instr.angle_num.value * (2**denom_diff)
+    # In units of pi/16 a full turn is 32: reduce the numerator so that it always
+    # fits in the 8-bit operand (this only changes the global phase).
+    angle_num = (instr.angle_num.value * (2**denom_diff)) % 32
     return (Immediate(angle_num), Immediate(4))
